@@ -41,7 +41,7 @@ inductive R (α : Type) where
   | ok (a : α)
   | err (e : Errno)
   | unmodelled
-  deriving Repr, Inhabited
+  deriving Repr, Inhabited, DecidableEq
 
 /-! ## regular files -/
 
